@@ -245,6 +245,50 @@ let pack t =
       Buffer.add_string sb ("/" ^ s)) items;
   Buffer.contents b, Buffer.contents sb
 
+
+(* ---- MPIPack script with seeks / overwrites / a hop to rank 1 (see harness: pks) ---- *)
+let pks t =
+  let prelen = int_of_string t.(1) in
+  ignore prelen;
+  let ops = List.tl (List.tl (Array.to_list t)) in
+  let st pk = Printf.sprintf "%d,%d,%s" (int_of_nat (c07_pk_size pk)) (int_of_nat (c07_pk_tell pk)) (if c07_pk_eof pk then "e" else "n") in
+  let pk = ref c07_pk_empty in
+  let r0 = Buffer.create 256 and r1 = Buffer.create 256 and sp = Buffer.create 256 in
+  let cur = ref r0 in
+  let hop = ref false in
+  List.iter (fun op ->
+      match split '|' op with
+      | ["x"] ->
+          (* send: the whole buffer travels; rrecv(MPIPack(comm)) resizes to the message: cursor 0 *)
+          hop := true; cur := r1; pk := c07_pk_seek !pk O;
+          Buffer.add_string !cur ("/X" ^ hexof !pk.c07_pk_buf ^ "," ^ st !pk); Buffer.add_string sp "/-"
+      | ["k"; pos] ->
+          pk := c07_pk_seek !pk (if pos = "end" then c07_pk_size !pk else nat_of_int (int_of_string pos));
+          Buffer.add_string !cur ("/K" ^ st !pk); Buffer.add_string sp "/-"
+      | [k; ty; h] when k = "s" || k = "d" ->
+          let lay = Hashtbl.find table ty and tm = tm_of ty in
+          let els = List.map (c07_obj_values tm) (chunks lay.sz (unhex h)) in
+          let pt = c07_tm_ptype tm (k = "d") (S O) in
+          Buffer.add_string sp ("/B" ^ hexof (c07_pkn_item_bytes pt els));
+          pk := c07_pkn_write !pk pt els;
+          Buffer.add_string !cur ("/B" ^ hexof !pk.c07_pk_buf ^ "," ^ st !pk)
+      | ["r"; k; ty; _] ->
+          let lay = Hashtbl.find table ty and tm = tm_of ty in
+          Buffer.add_string sp "/-";
+          (match c07_pkn_read !pk (c07_tm_ptype tm (k = "d") (S O)) with
+           | None -> Buffer.add_string !cur "/RERR"
+           | Some (els, pk') ->
+               pk := pk';
+               let v = if k = "s" then hexof (c07_obj_store tm (List.hd els) (List.init lay.sz (fun _ -> n_of_int 0xA5)))
+                 else begin
+                   let unk = List.init lay.sz (fun i -> if List.exists (fun (o, s) -> i >= o && i < o + s) lay.all then N0 else n_of_int 256) in
+                   let s = String.concat "" (List.map (fun e -> hexof (c07_obj_store tm e unk)) els) in if s = "" then "_" else s end in
+               Buffer.add_string !cur ("/R" ^ v ^ "," ^ st !pk))
+      | _ -> failwith ("pks op " ^ op)) ops;
+  let s0 = if Buffer.length r0 = 0 then "-" else Buffer.contents r0 in
+  let s1 = if !hop then Buffer.contents r1 else "-" in
+  s0 ^ ";" ^ s1, Buffer.contents sp
+
 let () =
   load_table Sys.argv.(1);
   let ic = open_in Sys.argv.(2) in
@@ -257,6 +301,7 @@ let () =
         | "p2p" -> p2p t
         | "dt" -> dt t
         | "pack" -> pack t
+        | "pks" -> pks t
         | "layout" -> layout t
         | _ -> "UNKNOWN", "UNKNOWN")
       with e -> "MODEL-EXC " ^ Printexc.to_string e, "MODEL-EXC" in
